@@ -41,7 +41,14 @@ def analyze_source(repo, module, source, qual='<reference>'):
     node = tree.body[0]
     fi = FuncInfo(qual, node, repo.module(module))
     fa = FuncAnalysis(repo, fi)
-    # nested defs of the reference
+    # nested defs of the reference (analysed with the enclosing environment)
+    from .model import _nested_defs
+    fa.nested_analyses = {}
+    for sub in _nested_defs(node):
+        q2 = qual + '.<locals>.' + sub.name
+        fi2 = FuncInfo(q2, sub, repo.module(module), parent=fi)
+        closure = {k: v for k, v in fa.closures.get(q2, fa.env).items() if isinstance(k, str)}
+        fa.nested_analyses[sub.name] = FuncAnalysis(repo, fi2, closure=closure)
     return fa
 
 
@@ -131,13 +138,16 @@ def _show_effect(p, gs):
 
 
 def compare(ctx, rule, fa, ref_source, module=None, known=(), ignore=None, why='',
-            drop_guards=(), only_kinds=None, positional_params=True):
+            drop_guards=(), only_kinds=None, positional_params=True, ref_fa=None, extra_rename=None):
     """Compare the effects of ``fa`` with those of the reference.  ``known``:
     list of (predicate(found_str, expected_str) -> bool, key, reason) for
     recorded genuine defects."""
     module = module or fa.module.name
-    ref = analyze_source(ctx.repo, module, ref_source)
-    rename = {}
+    ref = ref_fa if ref_fa is not None else analyze_source(ctx.repo, module, ref_source)
+    rename = dict(extra_rename or {})
+    # nested function references are matched by order of definition
+    for (an, aq), (rn, rq) in zip(fa.nested.items(), getattr(ref, 'nested', {}).items()):
+        rename[('fn', aq)] = ('fn', rq)
     if positional_params:
         for a, b in zip(fa.params, ref.params):
             if a != b:
